@@ -156,6 +156,31 @@ def arr_conformance(rnd, rounds=200):
         n += 1
         if conc(model) != real.tolist():
             return n, f"array model disagrees after mutation: numpy {real.tolist()} model {conc(model)}"
+        # narrow integer dtypes wrap around: arithmetic, masked +=, astype, array-valued stores
+        for dt in (np.uint8, np.int8, np.uint16, np.int32):
+            hi = int(np.iinfo(dt).max)
+            vals = [rnd.choice([0, 1, hi, hi - 1, hi // 2, rnd.randint(0, hi)]) for _ in range(6)]
+            rn = np.array(vals, dtype=dt).reshape(3, 2)
+            cc = np.empty((3, 2), dtype=object)
+            for idx in np.ndindex(3, 2):
+                cc[idx] = z3.IntVal(int(rn[idx]))
+            mn = SArr(cc, dt)
+            k = rnd.choice([1, 2, hi // 2, hi])
+            big = np.array([hi + 1 + rnd.randint(0, 5), 3], dtype=np.int64)
+            outs = []
+            for a in (rn, mn):
+                r1 = conc(a + k)
+                r2 = conc(a * 2)
+                fr = a[1]
+                fr[fr != 0] += k
+                a[1] = fr
+                a[2] = big
+                r3 = conc(a)
+                r4 = conc(a.astype(np.int64).astype(dt))
+                outs.append([r1, r2, r3, r4])
+            n += 1
+            if outs[0] != outs[1]:
+                return n, f"narrow dtype {np.dtype(dt).name}: numpy {outs[0]}, model {outs[1]} (k={k}, start {vals})"
     return n, None
 
 
